@@ -23,7 +23,7 @@ CTYPES = ["text/plain", "text/html", "text/plain; charset=utf-8", "application/o
           "application/pdf; name=\"Invoice-Q3.PDF\"", "text/calendar; method=REQUEST; charset=utf-8", "application/x-Mixed; Name=\"CamelCase.Bin\""]
 CONTENTS = [b"hello", b"line1\nline2\n", b"", b"--", b"--x\r\n--x--\r\n", b"-- \n", b"caf\xc3\xa9", b"\x00\x01\xff binary", b"a" * 100, b"x\r\n.\r\ny",
             b"--boundary\n", b"=3D=\n", b"trailing space \n", b"\r\n\r\n", b"From: inj@x\n\nbody"]
-BOUNDARIES = ["-", "-", "-", "a b", "a =?b?= c", "=?x?= y", "=_x'()+_,-./:=?", "simple", "x" * 70, "0", "y" * 71, "z" * 100, "Upper-CASE_boundary"]
+BOUNDARIES = ["-", "-", "-", "a b", "a =?b?= c", "=?x?= y", "=_next  part_=", "two   blanks and   more x", "=_x'()+_,-./:=?", "simple", "x" * 70, "0", "y" * 71, "z" * 100, "Upper-CASE_boundary"]
 
 
 def valid_utf8(b):
@@ -36,7 +36,7 @@ def valid_utf8(b):
 
 ATT_NAMES = ["", " ", " leading blank.txt", "trailing blank.txt ", "and/or.txt", "minutes 2024/06/30.txt", "/etc/passwd", "dir\\sub\\file.txt", "trailing/", "Invoice-Q3.PDF", "x.txt", "report final.pdf", 'report "final".pdf', "C:\\temp\\new.txt", "résumé.pdf", "日本語.txt", "a" * 70 + ".bin", 'q"' * 10, "semi;colon.txt",
              "it's", "a b c " * 12, "trailing\\", "=?utf-8?b?eA==?=.txt"]
-CIDS = ["img1", "part1.06090408.01060107@example.org", "a b"]
+CIDS = ["img1", "part1.06090408.01060107@example.org", "a b", "a\x00b", "esc\x1b[0m", "del\x7f", "vt\x0bff\x0c", "cid " * 20, "w" * 70 + " tail of the id"]
 
 
 def tree(rng, depth, used):
